@@ -109,6 +109,17 @@ def judge_root(topo, style, ns, form, node, depths, res, case, order="mu", flavo
                 if not ur.ok or not same(ur.val, e):
                     res.violation(f"C07/unmarshal/root=cls-instance-with-raw-members/edges={kinds}/{'raises:' + ur.excname if not ur.ok else 'level-not-converted'}/{dclass}",
                                   f"unmarshal(C{node}, C{node}(**wire of depth {d})) = {short(ur.val if ur.ok else ur.exc, 160)} expected {short(e, 160)}; topology {topo.key()} [{style}]", dict(case, d=d))
+        if form == "cls" and d == 2 and isinstance(w, dict):
+            # conformance at depth: a null in place of a node that sits in a list / dict / variadic-tuple edge is not a member of that
+            # collection's element type - the call raises, or whatever it returns holds a converted node there, at every level
+            for path, variant in _null_variants(w):
+                un = call(bu.val, variant)
+                res.evals += 1
+                res.outcomes.add(h64(topo.key(), style, form, node, "null", repr(path), "ok" if un.ok else un.excname))
+                if un.ok and _at(un.val, path) is None:
+                    res.violation(f"C07/unmarshal/root={form}/edges={kinds}/null-member-of-a-collection-edge-accepted/level{len(path) // 2}",
+                                  f"unmarshal(C{node}, wire of depth 2 with null at {path}) returns {short(un.val, 160)}: the collection edge holds None where its element type is a class; topology {topo.key()} [{style}]",
+                                  dict(case, d=d))
         m = call(bm.val, e)
         res.evals += 1
         if not m.ok:
@@ -132,6 +143,61 @@ def judge_root(topo, style, ns, form, node, depths, res, case, order="mu", flavo
     return outs
 
 
+def _null_paths(w, path=()):
+    """wire paths (field, holder, field, holder, ...) of every node held by a list (holder 0) or by a mapping under the key 'kk'"""
+    out = []
+    for k, v in w.items():
+        if not k.startswith("l"):
+            continue
+        if isinstance(v, list) and v and isinstance(v[0], dict):
+            here = path + (k, 0)
+            out.append(here)
+            out += _null_paths(v[0], here)
+        elif isinstance(v, dict) and isinstance(v.get("kk"), dict):
+            here = path + (k, "kk")
+            out.append(here)
+            out += _null_paths(v["kk"], here)
+        elif isinstance(v, dict) and "v" in v:
+            out += _null_paths(v, path + (k, None))  # an optional / bare / pipe edge: descend only
+        elif isinstance(v, dict) and isinstance(v.get("x"), dict):
+            out += _null_paths(v["x"], path + (k, "x"))  # through a helper member
+    return out
+
+
+def _null_variants(w):
+    return [(p, _set_none(w, p)) for p in _null_paths(w)]
+
+
+def _set_none(root, path):
+    import copy
+
+    r = copy.deepcopy(root)
+    cur = r
+    steps = [p for p in path]
+    # path = (field, holder, field, holder, ...): holder None = the field value itself is the node
+    for i in range(0, len(steps) - 2, 2):
+        cur = cur[steps[i]]
+        if steps[i + 1] is not None:
+            cur = cur[steps[i + 1]]
+    f, h = steps[-2], steps[-1]
+    cur[f][h] = None
+    return r
+
+
+def _at(val, path):
+    """the element of the RESULT at the wire path (attributes or keys for fields, index / key for holders); a sentinel if the path breaks"""
+    cur = val
+    try:
+        for i in range(0, len(path), 2):
+            f, h = path[i], path[i + 1]
+            cur = cur[f] if isinstance(cur, dict) else getattr(cur, f)
+            if h is not None:
+                cur = cur[h] if isinstance(h, str) and isinstance(cur, dict) else (getattr(cur, h) if isinstance(h, str) else list(cur)[h])
+        return cur
+    except Exception:  # noqa: BLE001
+        return "<path-broken>"
+
+
 def run_topo(n, idx, tier, res, only=None):
     topo = topos(n)[idx]
     fam_n, n = n, topo.n  # fam_n addresses the topology list (replay), n is the class count from here on
@@ -140,8 +206,8 @@ def run_topo(n, idx, tier, res, only=None):
         extra_style = style not in ("future", "eager")
         if extra_style and n > 2:
             continue
-        if extra_style and tier == "quick" and sum(len(ls) for ls in topo.links) > 2:
-            continue  # quick: the extra class styles only on the topologies with at most two links
+        if extra_style and (tier == "quick" or style == "call") and sum(len(ls) for ls in topo.links) > 2:
+            continue  # quick: the extra class styles only on the topologies with at most two links (the style `call` in both tiers)
         flavour = style if style in ("td", "nt") else "init" if style.startswith("init") else "dc"
         src = topo.source(style in ("future", "init-future", "call"), nested=(style == "nested"), flavour=flavour, callable_=(style == "call"))
         for node in range(n):
@@ -149,6 +215,8 @@ def run_topo(n, idx, tier, res, only=None):
                 if only is not None and (style, node, form) != tuple(only):
                     continue
                 ds = depths if (form in ("cls", "list")) else [d for d in depths if d <= 12]
+                if style == "call":
+                    ds = [d for d in ds if d <= 12]
                 cold.clear_all()
                 name, ns = load(src)
                 res.programs += 1
